@@ -2,6 +2,9 @@ package main
 
 import (
 	"fmt"
+	"go/ast"
+	"go/constant"
+	"go/types"
 	"regexp"
 	"strings"
 )
@@ -175,6 +178,42 @@ func checkC13(c *Check) {
 			b.ob("tl2-evolution/skip-sized-value", "SkipSizedValue", ok, "parses the length, rejects length > remaining input, advances by exactly the length")
 		}
 	}
+	// the generator: a field that is present on the wire but not decoded is skipped by its declared size. Only the
+	// emitters of fixed-width kinds (primitives, bool) may produce a fixed-width skip; every kind that is written with a
+	// size prefix (struct — also one without fields —, union, maybe, tuple/vector, dictionary) must produce the sized skip,
+	// because a newer writer may have put more into the same object
+	if r := loadRepoFuncs(c, "./internal/puregen/gengo"); r != nil {
+		fixedAllowed := map[string]bool{"TypeRWPrimitive": true, "TypeRWBool": true}
+		nSkip := 0
+		for _, name := range sortedKeys(r.funcs) {
+			fi := r.funcs[name]
+			if fi.Obj.Name() != "skipTL2Call" || fi.Decl.Recv == nil || fi.Decl.Body == nil {
+				continue
+			}
+			recv := namedStructName(fi.Obj.Type().(*types.Signature).Recv().Type())
+			fixed, sized := 0, 0
+			ast.Inspect(fi.Decl.Body, func(n ast.Node) bool {
+				if e, ok := n.(ast.Expr); ok {
+					if tv, ok := fi.Pkg.TypesInfo.Types[e]; ok && tv.Value != nil && tv.Value.Kind() == constant.String {
+						v := constant.StringVal(tv.Value)
+						if strings.Contains(v, "SkipFixedSizedValue") {
+							fixed++
+						}
+						if strings.Contains(v, "SkipSizedValue") {
+							sized++
+						}
+						return false
+					}
+				}
+				return true
+			})
+			nSkip++
+			ok := fixed == 0 && sized > 0 || fixedAllowed[recv]
+			c.Ob("tl2-evolution/generator-skips-sized-kinds-by-size", recv+".skipTL2Call", ok, r.pos(fi.Decl.Pos()), fmt.Sprintf("emits fixed-width skip: %d, sized skip: %d; a fixed-width skip is allowed only for %v", fixed, sized, sortedKeys(fixedAllowed)))
+		}
+		c.Set("generator_skip_emitters", nSkip)
+	}
+	c.Floor("tl2-evolution/generator-skips-sized-kinds-by-size", 6)
 	c.Floor("tl2-evolution/zero-size-resets", 100)
 	c.Floor("tl2-evolution/body-cut-by-declared-size", 100)
 	c.Floor("tl2-evolution/fields-read-from-body-only", 100)
